@@ -64,7 +64,10 @@ def run_check(prop, tier, seed):
             except Exception:
                 _harness_error('replay of %s/%s raised:\n%s'
                                % (prop, cls, traceback.format_exc()))
-            if o1 != o2:
+            ign = set(o1.get('_ignore_in_divergence_check', [])) | \
+                set(o2.get('_ignore_in_divergence_check', []))
+            if ({k: v for k, v in o1.items() if k not in ign} !=
+                    {k: v for k, v in o2.items() if k not in ign}):
                 _harness_error('replay divergence for %s/%s: %r vs %r'
                                % (prop, cls, o1, o2))
             if not o1.get('violates', True):
